@@ -39,8 +39,9 @@ def PkPost (b : Nat) (fwd : Bool) : Outcome → Prop
   | .error _ => False
 
 /-- The nested attempts of the look-arounds are safe. -/
-def LookOK (look : Runner) : Prop :=
-  ∀ s0 d steps peak, SOK prog A V s0.pos d s0 → PkPost prog V s0.pos d (look s0 d steps peak)
+def LookOK (Pre : State → Bool → Prop) (look : Runner) : Prop :=
+  ∀ s0 d steps peak, SOK prog A V s0.pos d s0 → Pre s0 d →
+    PkPost prog V s0.pos d (look s0 d steps peak)
 
 variable {prog inp A V}
 
@@ -144,11 +145,12 @@ theorem runLoop_ok {b : Nat} {fwd : Bool} {s : State} (hd : DataOK prog V s)
         | true => exact ⟨⟨hA2, hb, hd' _⟩, ⟨hA1, hb, hd' _⟩⟩
         | false => exact ⟨⟨hA1, hb, hd' _⟩, ⟨hA2, hb, hd' _⟩⟩
 
-theorem lookArm_ok {look : Runner} (hl : LookOK prog A V look) {b : Nat} {fwd : Bool} {s : State}
+theorem lookArm_ok {Pre : State → Bool → Prop} {look : Runner} (hl : LookOK prog A V Pre look)
+    {b : Nat} {fwd : Bool} {s : State}
     (h : SOK prog A V b fwd s) (d neg : Bool) (k : Nat) (hA1 : A d (s.ip + 1) s.pos)
-    (hAk : A fwd k s.pos) (steps peak : Nat) :
+    (hAk : A fwd k s.pos) (hpre : Pre { s with ip := s.ip + 1 } d) (steps peak : Nat) :
     SMPost prog A V b fwd (lookArm look d neg k s steps peak) := by
-  have hlk := hl { s with ip := s.ip + 1 } d steps peak ⟨hA1, MovedLe.refl _ _, h.2.2.of_eq rfl rfl⟩
+  have hlk := hl { s with ip := s.ip + 1 } d steps peak ⟨hA1, MovedLe.refl _ _, h.2.2.of_eq rfl rfl⟩ hpre
   unfold lookArm
   simp only
   cases hr : look { s with ip := s.ip + 1 } d steps peak with
@@ -166,10 +168,22 @@ theorem lookArm_ok {look : Runner} (hl : LookOK prog A V look) {b : Nat} {fwd : 
     · exact ⟨hAk, h.2.1, h.2.2.of_eq rfl rfl⟩
     · exact h.2.2.of_eq rfl rfl
 
+/-- The hypothesis under which the `backref_icase` site is safe for a thread: the referenced range
+is not inverted. -/
+def PkIcaseOrdered (prog : Prog) (s : State) : Prop :=
+  ∀ (g : Nat) (gd : GroupData) (rs re : Nat), prog.insns[s.ip]? = some (.backRef g true) →
+    s.groups[g]? = some gd → gd.asRange = some (rs, re) → rs ≤ re
+
+theorem pkIcaseOrdered_of_nb (hnb : noIcaseBackref prog = true) (s : State) : PkIcaseOrdered prog s :=
+  fun g _ _ _ hi => absurd hi (noIcaseBackref_spec hnb _ g)
+
 /-- Every instruction except `Loop1CharBody`. -/
 theorem tms_simple (hs : Spec prog inp A V) (hw : wfProg prog = true)
-    (hnb : noIcaseBackref prog = true) {look : Runner} (hl : LookOK prog A V look)
-    {b : Nat} {fwd : Bool} {s : State} (h : SOK prog A V b fwd s) {insn : Insn}
+    {Pre : State → Bool → Prop} {look : Runner} (hl : LookOK prog A V Pre look)
+    {b : Nat} {fwd : Bool} {s : State} (h : SOK prog A V b fwd s) (hnb : PkIcaseOrdered prog s)
+    {insn : Insn}
+    (hpre : ∀ neg sg eg k, (insn = .lookahead neg sg eg k → Pre { s with ip := s.ip + 1 } true) ∧
+      (insn = .lookbehind neg sg eg k → Pre { s with ip := s.ip + 1 } false))
     (hi : prog.insns[s.ip]? = some insn) (hnl : ∀ mn mx g, insn ≠ .loop1 mn mx g)
     (d steps peak : Nat) :
     SMPost prog A V b fwd (tryMatchState prog inp look (d + 1) s fwd steps peak) := by
@@ -297,15 +311,20 @@ theorem tms_simple (hs : Spec prog inp A V) (hw : wfProg prog = true)
         · cases hr
       simp only
       cases ic with
-      | true => exact absurd hi (noIcaseBackref_spec hnb _ g)
+      | true =>
+        simp only [if_true]
+        apply scmArm_ok hS
+        exact hs.backrefI hA hi hrs.1 hrs.2 (hnb g cg rs re hi hcg hr)
       | false =>
         simp only [Bool.false_eq_true, if_false]
         apply scmArm_ok hS
         exact ⟨_, rfl, fun p hp => hs.backref hA hi hrs.1 hrs.2 hp⟩
   | lookahead neg sg eg k =>
-    exact lookArm_ok hl hS true neg k ((hs.look hA).1 hi) (hctrl _ (by simp [ctrlSuccs])) steps peak
+    exact lookArm_ok hl hS true neg k ((hs.look hA).1 hi) (hctrl _ (by simp [ctrlSuccs]))
+      ((hpre neg sg eg k).1 rfl) steps peak
   | lookbehind neg sg eg k =>
-    exact lookArm_ok hl hS false neg k ((hs.look hA).2 hi) (hctrl _ (by simp [ctrlSuccs])) steps peak
+    exact lookArm_ok hl hS false neg k ((hs.look hA).2 hi) (hctrl _ (by simp [ctrlSuccs]))
+      ((hpre neg sg eg k).2 rfl) steps peak
   | enterLoop id mn mx gr exit =>
     simp only [wfInsn, Bool.and_eq_true, decide_eq_true_eq] at hwi
     exact runLoop_ok hd hb hwi.1.1 (hctrl _ (by simp [ctrlSuccs])) (hctrl _ (by simp [ctrlSuccs]))
@@ -370,7 +389,7 @@ theorem tms_body_simple {look : Runner} {s : State} {insn : Insn}
 
 /-- `Loop1CharBody`. -/
 theorem tms_loop1 (hs : Spec prog inp A V) (hw : wfProg prog = true)
-    (hnb : noIcaseBackref prog = true) {look : Runner} (hl : LookOK prog A V look)
+    {Pre : State → Bool → Prop} {look : Runner} (hl : LookOK prog A V Pre look)
     {b : Nat} {fwd : Bool} {s : State} (h : SOK prog A V b fwd s) {mn : Nat} {mx : Option Nat}
     {g : Bool} (hi : prog.insns[s.ip]? = some (.loop1 mn mx g)) (d steps peak : Nat) :
     SMPost prog A V b fwd (tryMatchState prog inp look (d + 2) s fwd steps peak) := by
@@ -387,8 +406,14 @@ theorem tms_loop1 (hs : Spec prog inp A V) (hw : wfProg prog = true)
   have hnl : ∀ mn mx g, body ≠ .loop1 mn mx g := by
     intro a b' c hh; rw [hh] at hbody; simp [scmAccepted] at hbody
   -- the recursive call on the body
-  have hin := tms_simple hs hw hnb hl (s := { s with ip := s.ip + 1 }) (b := b)
-    ⟨((hl1 s.pos).2 hv).1, hb, hd.of_eq rfl rfl⟩ hbi hnl d steps peak
+  have hin := tms_simple hs hw hl (s := { s with ip := s.ip + 1 }) (b := b)
+    ⟨((hl1 s.pos).2 hv).1, hb, hd.of_eq rfl rfl⟩
+    (fun g _ _ _ hi' => by
+      have : prog.insns[s.ip + 1]? = some (.backRef g true) := hi'
+      rw [hbi] at this; cases this; simp [scmAccepted] at hbody)
+    (fun neg sg eg k => ⟨fun hh => by rw [hh] at hbody; simp [scmAccepted] at hbody,
+      fun hh => by rw [hh] at hbody; simp [scmAccepted] at hbody⟩)
+    hbi hnl d steps peak
   have hsimple := tms_body_simple (inp := inp) (look := look) (s := { s with ip := s.ip + 1 }) hbi hbody.1
     fwd d steps peak
   unfold tryMatchState
@@ -457,14 +482,20 @@ theorem tms_loop1 (hs : Spec prog inp A V) (hw : wfProg prog = true)
 
 /-- `try_match_state` with a recursion budget of at least 2. -/
 theorem tms_ok (hs : Spec prog inp A V) (hw : wfProg prog = true)
-    (hnb : noIcaseBackref prog = true) {look : Runner} (hl : LookOK prog A V look)
-    {b : Nat} {fwd : Bool} {s : State} (h : SOK prog A V b fwd s) (d steps peak : Nat) :
+    {Pre : State → Bool → Prop} {look : Runner} (hl : LookOK prog A V Pre look)
+    {b : Nat} {fwd : Bool} {s : State} (h : SOK prog A V b fwd s) (hnb : PkIcaseOrdered prog s)
+    (hpre : ∀ neg sg eg k,
+      (prog.insns[s.ip]? = some (.lookahead neg sg eg k) → Pre { s with ip := s.ip + 1 } true) ∧
+      (prog.insns[s.ip]? = some (.lookbehind neg sg eg k) → Pre { s with ip := s.ip + 1 } false))
+    (d steps peak : Nat) :
     SMPost prog A V b fwd (tryMatchState prog inp look (d + 2) s fwd steps peak) := by
   obtain ⟨insn, hi⟩ := getElem?_of_lt' (hs.ip_lt h.1)
   by_cases hl1 : ∃ mn mx g, insn = .loop1 mn mx g
   · obtain ⟨mn, mx, g, rfl⟩ := hl1
-    exact tms_loop1 hs hw hnb hl h hi d steps peak
-  · exact tms_simple hs hw hnb hl h hi (fun mn mx g hh => hl1 ⟨mn, mx, g, hh⟩) (d + 1) steps peak
+    exact tms_loop1 hs hw hl h hi d steps peak
+  · exact tms_simple hs hw hl h hnb
+      (fun neg sg eg k => ⟨fun hh => (hpre neg sg eg k).1 (hh ▸ hi), fun hh => (hpre neg sg eg k).2 (hh ▸ hi)⟩)
+      hi (fun mn mx g hh => hl1 ⟨mn, mx, g, hh⟩) (d + 1) steps peak
 
 /-- Every thread on the stack is good. -/
 def AllOK (prog : Prog) (A : Bool → Nat → Nat → Prop) (V : Nat → Prop) (b : Nat) (fwd : Bool)
@@ -527,13 +558,14 @@ theorem runStates_safe (hs : Spec prog inp A V) (hw : wfProg prog = true)
       · have hS : SOK prog A V b fwd s := by
           rw [Array.back?_eq_getElem?] at hbk
           exact hall _ _ hbk
-        have hl : LookOK prog A V (fun s0 dirFwd steps peak =>
+        have hl : LookOK prog A V (fun _ _ => True) (fun s0 dirFwd steps peak =>
             runStates prog inp limit sf #[s0] dirFwd steps peak) :=
-          fun s0 d st pk h0 => ih #[s0] d st pk s0.pos (AllOK.single h0)
+          fun s0 d st pk h0 _ => ih #[s0] d st pk s0.pos (AllOK.single h0)
         have hsz : 0 < prog.insns.size := Nat.lt_of_le_of_lt (Nat.zero_le _) (hs.ip_lt hS.1)
         obtain ⟨d, hd⟩ : ∃ d, prog.insns.size + 1 = d + 2 := ⟨prog.insns.size - 1, by omega⟩
         rw [hd]
-        have hsm := tms_ok hs hw hnb hl hS d (steps + 1)
+        have hsm := tms_ok hs hw hl hS (pkIcaseOrdered_of_nb hnb s)
+          (fun _ _ _ _ => ⟨fun _ => trivial, fun _ => trivial⟩) d (steps + 1)
           (if peak < states.size then states.size else peak)
         cases hr : tryMatchState prog inp (fun s0 dirFwd steps peak =>
             runStates prog inp limit sf #[s0] dirFwd steps peak) (d + 2) s fwd (steps + 1)
@@ -546,5 +578,575 @@ theorem runStates_safe (hs : Spec prog inp A V) (hw : wfProg prog = true)
         | split s' n st pk => rw [hr] at hsm; exact ih _ _ _ _ _ ((hall.pop.push hsm.1).push hsm.2)
 
 end Inv
+
+/-! ## Frame and ordering of the capture ranges for the PikeVM -/
+
+section FO
+open Regress.VM.Bt (Region InR GInR RClosed rclosed_spec lookConfined lookConfined_spec AgreeOut)
+
+variable {prog : Prog} {inp : Input} (c : OrdCert)
+
+/-- The frame/ordering facts about one thread of a run in region `R` started with the groups `G0`. -/
+def TOK (R : Option Region) (G0 : Array GroupData) (fwd : Bool) (s : State) : Prop :=
+  InR R s.ip ∧ AgreeOut R s.groups G0 ∧ OrdAt c fwd s.ip s.pos s.groups
+
+def PFO (R : Option Region) (G0 : Array GroupData) (fwd : Bool) : SM → Prop
+  | .cont s' _ _ => TOK c R G0 fwd s'
+  | .split s1 s2 _ _ => TOK c R G0 fwd s1 ∧ TOK c R G0 fwd s2
+  | .complete s' _ _ => TOK c R G0 fwd s'
+  | _ => True
+
+/-- Frame/ordering post-condition of a (nested) attempt. -/
+def PkPostFO (R : Option Region) (G0 : Array GroupData) : Outcome → Prop
+  | .matched _ st _ _ =>
+    AgreeOut R st.groups G0 ∧ ∀ (g : Nat) (gd : GroupData), st.groups[g]? = some gd → Ordered gd
+  | _ => True
+
+def LookFO (prog : Prog) (c : OrdCert) (Pre : State → Bool → Prop) (look : Runner) : Prop :=
+  ∀ s0 d steps peak R', Pre s0 d → RClosed prog (some R') → InR (some R') s0.ip →
+    OrdAt c d s0.ip s0.pos s0.groups → PkPostFO (some R') s0.groups (look s0 d steps peak)
+
+/-- A result thread that differs from `s` only by a control successor and a later position. -/
+def PS (prog : Prog) (fwd : Bool) (s : State) (insn : Insn) (s' : State) : Prop :=
+  s'.groups = s.groups ∧ s'.ip ∈ allSuccs prog s.ip insn ∧ MovedLe fwd s.pos s'.pos
+
+def Plain (prog : Prog) (fwd : Bool) (s : State) (insn : Insn) : SM → Prop
+  | .cont s' _ _ => PS prog fwd s insn s'
+  | .split a b _ _ => PS prog fwd s insn a ∧ PS prog fwd s insn b
+  | .complete _ _ _ => False
+  | .fail s' _ _ => s'.groups = s.groups
+  | _ => True
+
+variable {c}
+
+theorem TOK.plain (hchk : checkOrd prog c = true) {R : Option Region} (hc : RClosed prog R)
+    {G0 : Array GroupData} {fwd : Bool} {s : State} (h : TOK c R G0 fwd s) {insn : Insn}
+    (hi : prog.insns[s.ip]? = some insn) (hgo : groupOf insn = none)
+    (hl : ∀ neg sg eg k, insn ≠ .lookahead neg sg eg k ∧ insn ≠ .lookbehind neg sg eg k)
+    {s' : State} (hp : PS prog fwd s insn s') : TOK c R G0 fwd s' := by
+  obtain ⟨hin, hag, ⟨v, hv, hvec⟩⟩ := h
+  obtain ⟨hg, ht, hm⟩ := hp
+  obtain ⟨hs, _, _⟩ := rclosed_spec hc hin hi
+  refine ⟨hs _ ht, by rw [hg]; exact hag, ?_⟩
+  obtain ⟨vt, hvt, hw⟩ := (checkOrd_spec hchk hi hv).2.2 _ _ (Bt.ordEdges_plain v hl ht)
+  rw [Bt.outVec_plain hgo] at hw
+  rw [hg]
+  exact ⟨vt, hvt, (hvec.mono hm).weaken hw⟩
+
+theorem PFO.of_plain (hchk : checkOrd prog c = true) {R : Option Region} (hc : RClosed prog R)
+    {G0 : Array GroupData} {fwd : Bool} {s : State} (h : TOK c R G0 fwd s) {insn : Insn}
+    (hi : prog.insns[s.ip]? = some insn) (hgo : groupOf insn = none)
+    (hl : ∀ neg sg eg k, insn ≠ .lookahead neg sg eg k ∧ insn ≠ .lookbehind neg sg eg k)
+    {sm : SM} (hp : Plain prog fwd s insn sm) : PFO c R G0 fwd sm := by
+  cases sm with
+  | cont s' _ _ => exact h.plain hchk hc hi hgo hl hp
+  | split a b _ _ => exact ⟨h.plain hchk hc hi hgo hl hp.1, h.plain hchk hc hi hgo hl hp.2⟩
+  | complete _ _ _ => exact hp.elim
+  | fail _ _ _ => trivial
+  | outOfFuel => trivial
+  | err _ => trivial
+
+theorem nextOrFail_plain {fwd : Bool} {s s0 : State} {insn : Insn} (v : Bool) (steps peak : Nat)
+    (hg : s0.groups = s.groups) (hip : s0.ip = s.ip) (h1 : s.ip + 1 ∈ allSuccs prog s.ip insn)
+    (hm : MovedLe fwd s.pos s0.pos) : Plain prog fwd s insn (nextOrFail v s0 steps peak) := by
+  unfold nextOrFail
+  split
+  · exact ⟨hg, by simp only [hip]; exact h1, hm⟩
+  · exact hg
+
+theorem nextElemArm_plain {fwd : Bool} {s : State} {insn : Insn}
+    (h1 : s.ip + 1 ∈ allSuccs prog s.ip insn) (f : Nat → Except String Bool) (site : String)
+    (steps peak : Nat) : Plain prog fwd s insn (nextElemArm inp fwd s f site steps peak) := by
+  unfold nextElemArm
+  split
+  · trivial
+  · exact rfl
+  · rename_i hn
+    split
+    · trivial
+    · exact nextOrFail_plain _ _ _ rfl rfl h1 (next_moves hn)
+
+theorem scmArm_plain {fwd : Bool} {s : State} {insn : Insn}
+    (h1 : s.ip + 1 ∈ allSuccs prog s.ip insn) {r : Except Unit (Option Nat)}
+    (hr : ∀ p, r = .ok (some p) → MovedLe fwd s.pos p) (site : String) (steps peak : Nat) :
+    Plain prog fwd s insn (scmArm r s site steps peak) := by
+  unfold scmArm
+  split
+  · trivial
+  · exact rfl
+  · exact ⟨rfl, h1, hr _ rfl⟩
+
+theorem runLoop_plain {fwd : Bool} {s s0 : State} {insn : Insn} (hg : s0.groups = s.groups)
+    (hpos : s0.pos = s.pos) (id mn : Nat) (mx : Option Nat) (gr : Bool) (exit : Nat)
+    (h1 : s0.ip + 1 ∈ allSuccs prog s.ip insn) (h2 : exit ∈ allSuccs prog s.ip insn) (init : Bool)
+    (steps peak : Nat) : Plain prog fwd s insn (runLoop s0 id mn mx gr exit init steps peak) := by
+  have hm : MovedLe fwd s.pos s0.pos := by rw [hpos]; exact MovedLe.refl _ _
+  unfold runLoop
+  cases hld : s0.loops[id]? with
+  | none => trivial
+  | some ld =>
+    simp only
+    cases init with
+    | true =>
+      simp only [if_true]
+      cases maxPos mx <;> cases (mn == 0) <;> simp only [Bool.not_true, Bool.not_false, Bool.and_self,
+        Bool.and_true, Bool.and_false, Bool.false_eq_true, if_true, if_false]
+      · exact hg
+      · exact ⟨hg, h2, hm⟩
+      · exact ⟨hg, h1, hm⟩
+      · cases gr with
+        | true => exact ⟨⟨hg, h2, hm⟩, ⟨hg, h1, hm⟩⟩
+        | false => exact ⟨⟨hg, h1, hm⟩, ⟨hg, h2, hm⟩⟩
+    | false =>
+      simp only [Bool.false_eq_true, if_false]
+      split
+      · exact hg
+      · cases Bt.ltMax (ld.iters + 1) mx <;> cases decide (ld.iters + 1 ≥ mn) <;>
+          simp only [Bool.not_true, Bool.not_false, Bool.and_self,
+            Bool.and_true, Bool.and_false, Bool.false_eq_true, if_true, if_false]
+        · exact hg
+        · exact ⟨hg, h2, hm⟩
+        · exact ⟨hg, h1, hm⟩
+        · cases gr with
+          | true => exact ⟨⟨hg, h2, hm⟩, ⟨hg, h1, hm⟩⟩
+          | false => exact ⟨⟨hg, h1, hm⟩, ⟨hg, h2, hm⟩⟩
+
+theorem groupArm_fo (hchk : checkOrd prog c = true) {R : Option Region} (hc : RClosed prog R)
+    {G0 : Array GroupData} {fwd : Bool} {s : State} (h : TOK c R G0 fwd s) {insn : Insn}
+    (hi : prog.insns[s.ip]? = some insn) {g : Nat} (hgo : groupOf insn = some g)
+    (upd : GroupData → GroupData) (ka : Nat) (hout : ∀ v, outVec insn v = v.setIfInBounds g ka)
+    (hsem : ∀ v cg, c[s.ip]? = some (some v) → (∃ k, v[g]? = some k ∧ Sem fwd s.pos k cg) →
+      Sem fwd s.pos ka (upd cg)) (site : String) (steps peak : Nat) :
+    PFO c R G0 fwd (groupArm g upd s site steps peak) := by
+  obtain ⟨hin, hag, ⟨v, hv, hvec⟩⟩ := h
+  obtain ⟨hs, hg, _⟩ := rclosed_spec hc hin hi
+  unfold groupArm
+  cases hcg : s.groups[g]? with
+  | none => trivial
+  | some cg =>
+    simp only [nextOrFail, if_true]
+    have hs1 : s.ip + 1 ∈ allSuccs prog s.ip insn := by
+      cases insn <;> simp [groupOf] at hgo <;> simp [allSuccs]
+    have hedge : (s.ip + 1, outVec insn v) ∈ ordEdges prog s.ip insn v := by
+      cases insn <;> simp [groupOf] at hgo <;> simp [ordEdges, allSuccs]
+    obtain ⟨vt, hvt, hw⟩ := (checkOrd_spec hchk hi hv).2.2 _ _ hedge
+    rw [hout] at hw
+    refine ⟨hs _ hs1, ⟨by simp [hag.1], ?_⟩,
+      ⟨vt, hvt, (hvec.setGroup g ka (hsem v cg hv (hvec g cg hcg))).weaken hw⟩⟩
+    intro g' hgn
+    have : g ≠ g' := fun hh => hgn (hh ▸ hg g hgo)
+    simp only [Array.getElem?_setIfInBounds, this, if_false]
+    exact hag.2 g' hgn
+
+theorem lookArm_fo (hchk : checkOrd prog c = true) (hlc : lookConfined prog = true)
+    {R : Option Region} (hc : RClosed prog R) {G0 : Array GroupData} {fwd : Bool} {s : State}
+    (h : TOK c R G0 fwd s) {insn : Insn} (hi : prog.insns[s.ip]? = some insn) {look : Runner}
+    {Pre : State → Bool → Prop} (hl : LookFO prog c Pre look) (d neg : Bool) (sg eg k : Nat)
+    (hins : insn = .lookahead neg sg eg k ∨ insn = .lookbehind neg sg eg k)
+    (hpre : Pre { s with ip := s.ip + 1 } d) (steps peak : Nat) :
+    PFO c R G0 fwd (lookArm look d neg k s steps peak) := by
+  obtain ⟨hin, hag, ⟨v, hv, hvec⟩⟩ := h
+  obtain ⟨hs, _, hlg⟩ := rclosed_spec hc hin hi
+  obtain ⟨hlt, hc'⟩ := lookConfined_spec hlc hi hins
+  have hk : InR R k := hs k (by rcases hins with rfl | rfl <;> simp [allSuccs])
+  have hgr : ∀ g, sg ≤ g → g < eg → GInR R g := hlg neg sg eg k hins
+  have hedges : (s.ip + 1, lookBodyVec v) ∈ ordEdges prog s.ip insn v ∧
+      (k, lookContVec neg sg eg v) ∈ ordEdges prog s.ip insn v := by
+    rcases hins with rfl | rfl <;> simp [ordEdges]
+  obtain ⟨vb, hvb, hwb⟩ := (checkOrd_spec hchk hi hv).2.2 _ _ hedges.1
+  obtain ⟨vk, hvk, hwk⟩ := (checkOrd_spec hchk hi hv).2.2 _ _ hedges.2
+  have hlk := hl { s with ip := s.ip + 1 } d steps peak ⟨s.ip + 1, k, sg, eg⟩ hpre hc'
+    ⟨Nat.le_refl _, hlt⟩ ⟨vb, hvb, hvec.lookBody.weaken hwb⟩
+  unfold lookArm
+  simp only
+  cases hr : look { s with ip := s.ip + 1 } d steps peak with
+  | error e => trivial
+  | outOfFuel => trivial
+  | matched e s' st' pk' =>
+    rw [hr] at hlk
+    obtain ⟨⟨hsz, hag'⟩, hord⟩ := hlk
+    have hag'' : ∀ g : Nat, ¬ (sg ≤ g ∧ g < eg) → s'.groups[g]? = s.groups[g]? := hag'
+    simp only
+    cases neg with
+    | true => simp; trivial
+    | false =>
+      simp only [Bool.true_bne, Bool.not_false, if_true]
+      refine ⟨hk, ⟨by rw [hsz]; exact hag.1, ?_⟩, ⟨vk, hvk, (hvec.lookCont hsz hag'' hord).weaken hwk⟩⟩
+      intro g hgn
+      show s'.groups[g]? = G0[g]?
+      rw [hag'' g (fun hh => hgn (hgr g hh.1 hh.2))]
+      exact hag.2 g hgn
+  | failed st' pk' =>
+    simp only
+    cases neg with
+    | false => simp; trivial
+    | true =>
+      simp only [Bool.false_bne, if_true]
+      exact ⟨hk, hag, ⟨vk, hvk, hvec.lookContNeg.weaken hwk⟩⟩
+
+/-- The arms of a `Loop1CharBody` body (and of every other plain instruction). -/
+theorem tms_plain {look : Runner} {fwd : Bool} {s : State} {insn : Insn}
+    (hi : prog.insns[s.ip]? = some insn) (hgo : groupOf insn = none)
+    (hl : ∀ neg sg eg k, insn ≠ .lookahead neg sg eg k ∧ insn ≠ .lookbehind neg sg eg k)
+    (hnl : ∀ mn mx g, insn ≠ .loop1 mn mx g) (hng : insn ≠ .goal) (d steps peak : Nat) :
+    Plain prog fwd s insn (tryMatchState prog inp look (d + 1) s fwd steps peak) := by
+  unfold tryMatchState
+  rw [hi]
+  cases insn with
+  | goal => exact absurd rfl hng
+  | justFail => exact rfl
+  | char ch => exact nextElemArm_plain (by simp [allSuccs]) _ _ _ _
+  | charSet cs => exact nextElemArm_plain (by simp [allSuccs]) _ _ _ _
+  | matchAny => exact nextElemArm_plain (by simp [allSuccs]) _ _ _ _
+  | matchAnyExceptLineTerminator => exact nextElemArm_plain (by simp [allSuccs]) _ _ _ _
+  | bracket idx => exact nextElemArm_plain (by simp [allSuccs]) _ _ _ _
+  | byteSet bs => exact scmArm_plain (by simp [allSuccs]) (fun p h => scm_moves h) _ _ _
+  | asciiBracket bm => exact scmArm_plain (by simp [allSuccs]) (fun p h => scm_moves h) _ _ _
+  | byteSeq bs =>
+    refine scmArm_plain (by simp [allSuccs]) (fun p h => ?_) _ _ _
+    simp only [Except.ok.injEq, Cursor.tryMatchLit, Input.matchBytes] at h
+    exact matchBytes_moves h
+  | wordBoundary inv =>
+    simp only [wordBoundaryArm]
+    split
+    · trivial
+    · split
+      · trivial
+      · exact nextOrFail_plain _ _ _ rfl rfl (by simp [allSuccs]) (MovedLe.refl _ _)
+  | wordBoundaryUnicodeICase inv =>
+    simp only [wordBoundaryArm]
+    split
+    · trivial
+    · split
+      · trivial
+      · exact nextOrFail_plain _ _ _ rfl rfl (by simp [allSuccs]) (MovedLe.refl _ _)
+  | startOfLine ml =>
+    simp only [lineArm]
+    split
+    · trivial
+    · exact nextOrFail_plain _ _ _ rfl rfl (by simp [allSuccs]) (MovedLe.refl _ _)
+    · exact nextOrFail_plain _ _ _ rfl rfl (by simp [allSuccs]) (MovedLe.refl _ _)
+  | endOfLine ml =>
+    simp only [lineArm]
+    split
+    · trivial
+    · exact nextOrFail_plain _ _ _ rfl rfl (by simp [allSuccs]) (MovedLe.refl _ _)
+    · exact nextOrFail_plain _ _ _ rfl rfl (by simp [allSuccs]) (MovedLe.refl _ _)
+  | jump t => exact ⟨rfl, by simp [allSuccs], MovedLe.refl _ _⟩
+  | alt sec =>
+    exact ⟨⟨rfl, by simp [allSuccs], MovedLe.refl _ _⟩, ⟨rfl, by simp [allSuccs], MovedLe.refl _ _⟩⟩
+  | beginCaptureGroup g => simp [groupOf] at hgo
+  | endCaptureGroup g => simp [groupOf] at hgo
+  | resetCaptureGroup g => simp [groupOf] at hgo
+  | backRef g ic =>
+    simp only
+    split
+    · trivial
+    · split
+      · split
+        · exact scmArm_plain (by simp [allSuccs]) (fun p h => backrefIcase_moves h) _ _ _
+        · refine scmArm_plain (by simp [allSuccs]) (fun p h => ?_) _ _ _
+          simp only [Except.ok.injEq] at h
+          exact backref_moves h
+      · exact nextOrFail_plain _ _ _ rfl rfl (by simp [allSuccs]) (MovedLe.refl _ _)
+  | lookahead neg sg eg k => exact absurd rfl (hl neg sg eg k).1
+  | lookbehind neg sg eg k => exact absurd rfl (hl neg sg eg k).2
+  | enterLoop id mn mx gr exit =>
+    exact runLoop_plain rfl rfl id mn mx gr exit (by simp [allSuccs]) (by simp [allSuccs]) true _ _
+  | loopAgain bg =>
+    simp only
+    cases hbg : prog.insns[bg]? with
+    | none => trivial
+    | some bi =>
+      cases bi <;> first
+        | trivial
+        | exact runLoop_plain (prog := prog) (s := s) (insn := .loopAgain bg)
+            (s0 := { s with ip := bg }) rfl rfl _ _ _ _ _
+            (by simp [allSuccs, hbg]) (by simp [allSuccs, hbg]) false _ _
+  | loop1 mn mx g => exact absurd rfl (hnl mn mx g)
+
+theorem tms_fo_simple (hchk : checkOrd prog c = true) (hlc : lookConfined prog = true)
+    {R : Option Region} (hc : RClosed prog R) {G0 : Array GroupData} {fwd : Bool} {s : State}
+    (h : TOK c R G0 fwd s) {insn : Insn} (hi : prog.insns[s.ip]? = some insn)
+    (hnl : ∀ mn mx g, insn ≠ .loop1 mn mx g) {look : Runner} {Pre : State → Bool → Prop}
+    (hl : LookFO prog c Pre look)
+    (hpre : ∀ neg sg eg k, (insn = .lookahead neg sg eg k → Pre { s with ip := s.ip + 1 } true) ∧
+      (insn = .lookbehind neg sg eg k → Pre { s with ip := s.ip + 1 } false))
+    (d steps peak : Nat) :
+    PFO c R G0 fwd (tryMatchState prog inp look (d + 1) s fwd steps peak) := by
+  have hspec := fun v (hv : c[s.ip]? = some (some v)) => checkOrd_spec hchk hi hv
+  cases insn with
+  | goal => unfold tryMatchState; rw [hi]; exact h
+  | beginCaptureGroup g =>
+    unfold tryMatchState; rw [hi]
+    refine groupArm_fo hchk hc h hi rfl _ 2 (fun _ => rfl) ?_ _ _ _
+    intro v cg hv hk
+    obtain ⟨k, hk1, hk2⟩ := hk
+    rw [(hspec v hv).1 _ rfl] at hk1; cases hk1
+    exact sem_begin hk2
+  | endCaptureGroup g =>
+    unfold tryMatchState; rw [hi]
+    refine groupArm_fo hchk hc h hi rfl _ 0 (fun _ => rfl) ?_ _ _ _
+    intro v cg hv hk
+    obtain ⟨k, hk1, hk2⟩ := hk
+    rw [(hspec v hv).2.1 _ rfl] at hk1; cases hk1
+    exact sem_end hk2
+  | resetCaptureGroup g =>
+    unfold tryMatchState; rw [hi]
+    exact groupArm_fo hchk hc h hi rfl _ 1 (fun _ => rfl) (fun _ _ _ _ => sem_reset _ _) _ _ _
+  | lookahead neg sg eg k =>
+    unfold tryMatchState; rw [hi]
+    exact lookArm_fo hchk hlc hc h hi hl true neg sg eg k (Or.inl rfl) ((hpre neg sg eg k).1 rfl) _ _
+  | lookbehind neg sg eg k =>
+    unfold tryMatchState; rw [hi]
+    exact lookArm_fo hchk hlc hc h hi hl false neg sg eg k (Or.inr rfl) ((hpre neg sg eg k).2 rfl) _ _
+  | loop1 mn mx g => exact absurd rfl (hnl mn mx g)
+  | _ =>
+    exact PFO.of_plain hchk hc h hi rfl (fun _ _ _ _ => ⟨by simp, by simp⟩)
+      (tms_plain hi rfl (fun _ _ _ _ => ⟨by simp, by simp⟩) hnl (by simp) d steps peak)
+
+theorem tms_fo_loop1 (hchk : checkOrd prog c = true) (hw : wfProg prog = true)
+    {R : Option Region} (hc : RClosed prog R) {G0 : Array GroupData} {fwd : Bool} {s : State}
+    (h : TOK c R G0 fwd s) {mn : Nat} {mx : Option Nat} {g : Bool}
+    (hi : prog.insns[s.ip]? = some (.loop1 mn mx g)) {look : Runner} (d steps peak : Nat) :
+    PFO c R G0 fwd (tryMatchState prog inp look (d + 2) s fwd steps peak) := by
+  have hwi := wf_insn hw hi
+  simp only [wfInsn, Bool.and_eq_true, decide_eq_true_eq] at hwi
+  obtain ⟨⟨_, hlt⟩, hbody⟩ := hwi
+  obtain ⟨body, hbi⟩ := getElem?_of_lt' (a := prog.insns) (i := s.ip + 1) (by omega)
+  rw [hbi] at hbody
+  simp only [Bool.and_eq_true] at hbody
+  have hacc := hbody.1
+  -- the body is a plain instruction
+  have hbgo : groupOf body = none := by cases body <;> first | rfl | simp [scmAccepted] at hacc
+  have hbl : ∀ neg sg eg k, body ≠ .lookahead neg sg eg k ∧ body ≠ .lookbehind neg sg eg k := by
+    intro neg sg eg k
+    constructor <;> (intro hh; rw [hh] at hacc; simp [scmAccepted] at hacc)
+  have hbnl : ∀ mn mx g, body ≠ .loop1 mn mx g := by
+    intro a b' c' hh; rw [hh] at hacc; simp [scmAccepted] at hacc
+  have hbng : body ≠ .goal := by intro hh; rw [hh] at hacc; simp [scmAccepted] at hacc
+  have hin := tms_plain (inp := inp) (look := look) (fwd := fwd) (s := { s with ip := s.ip + 1 }) hbi hbgo
+    hbl hbnl hbng d steps peak
+  have hsimple := tms_body_simple (inp := inp) (look := look) (s := { s with ip := s.ip + 1 }) hbi hacc
+    fwd d steps peak
+  -- the two kinds of result threads
+  have hE : ∀ s1 : State, s1.groups = s.groups → s1.pos = s.pos →
+      TOK c R G0 fwd { s1 with ip := s.ip + 2, loop1Iters := 0 } := by
+    intro s1 hg hp
+    exact h.plain hchk hc hi rfl (fun _ _ _ _ => ⟨by simp, by simp⟩)
+      ⟨hg, by simp [allSuccs], by show MovedLe fwd s.pos s1.pos; rw [hp]; exact MovedLe.refl _ _⟩
+  have hT : ∀ (s1 : State) (tp : Nat), s1.groups = s.groups → s1.ip = s.ip → MovedLe fwd s.pos tp →
+      TOK c R G0 fwd { s1 with pos := tp, loop1Iters := s.loop1Iters + 1 } := by
+    intro s1 tp hg hip hm
+    obtain ⟨hin', hag, hord⟩ := h
+    refine ⟨by show InR R s1.ip; rw [hip]; exact hin', by show AgreeOut R s1.groups G0; rw [hg]; exact hag, ?_⟩
+    show OrdAt c fwd s1.ip tp s1.groups
+    rw [hip, hg]
+    obtain ⟨v, hv, hvec⟩ := hord
+    exact ⟨v, hv, hvec.mono hm⟩
+  have hfin : ∀ (tp : Option Nat) (s1 : State) (st pk : Nat), s1.groups = s.groups → s1.ip = s.ip →
+      s1.pos = s.pos → (∀ p, tp = some p → MovedLe fwd s.pos p) →
+      PFO c R G0 fwd
+        (match tp, decide (s.loop1Iters ≥ mn) with
+          | none, false => .fail s1 st pk
+          | none, true => .cont { s1 with ip := s.ip + 2, loop1Iters := 0 } st pk
+          | some tp, false => .cont { s1 with pos := tp, loop1Iters := s.loop1Iters + 1 } st pk
+          | some tp, true =>
+            if g then
+              .split { s1 with ip := s.ip + 2, loop1Iters := 0 }
+                { s1 with pos := tp, loop1Iters := s.loop1Iters + 1 } st pk
+            else
+              .split { s1 with pos := tp, loop1Iters := s.loop1Iters + 1 }
+                { s1 with ip := s.ip + 2, loop1Iters := 0 } st pk) := by
+    intro tp s1 st pk hg hip hpos htp
+    cases tp with
+    | none =>
+      cases decide (s.loop1Iters ≥ mn) with
+      | false => trivial
+      | true => exact hE s1 hg hpos
+    | some p =>
+      have hm := htp p rfl
+      cases decide (s.loop1Iters ≥ mn) with
+      | false => exact hT s1 p hg hip hm
+      | true =>
+        simp only
+        split
+        · exact ⟨hE s1 hg hpos, hT s1 p hg hip hm⟩
+        · exact ⟨hT s1 p hg hip hm, hE s1 hg hpos⟩
+  unfold tryMatchState
+  rw [hi]
+  simp only
+  cases hmax : Bt.ltMax s.loop1Iters mx with
+  | false =>
+    simp only [Bool.false_eq_true, if_false]
+    exact hfin none s steps peak rfl rfl rfl (fun p hp => by cases hp)
+  | true =>
+    simp only [if_true]
+    cases hr : tryMatchState prog inp look (d + 1) { s with ip := s.ip + 1 } fwd steps peak with
+    | err e => trivial
+    | outOfFuel => trivial
+    | split a b' c' d' => rw [hr] at hsimple; exact hsimple.elim
+    | complete a b' c' => rw [hr] at hsimple; exact hsimple.elim
+    | cont s' st pk =>
+      rw [hr] at hin
+      simp only
+      refine hfin (some s'.pos) _ st pk hin.1 rfl rfl ?_
+      intro p hp
+      cases hp
+      exact hin.2.2
+    | fail s' st pk =>
+      rw [hr] at hin
+      simp only
+      exact hfin none _ st pk hin rfl rfl (fun p hp => by cases hp)
+
+theorem tms_fo (hchk : checkOrd prog c = true) (hw : wfProg prog = true)
+    (hlc : lookConfined prog = true) {R : Option Region} (hc : RClosed prog R)
+    {G0 : Array GroupData} {fwd : Bool} {s : State} (h : TOK c R G0 fwd s)
+    (hlt : s.ip < prog.insns.size) {look : Runner} {Pre : State → Bool → Prop}
+    (hl : LookFO prog c Pre look)
+    (hpre : ∀ neg sg eg k,
+      (prog.insns[s.ip]? = some (.lookahead neg sg eg k) → Pre { s with ip := s.ip + 1 } true) ∧
+      (prog.insns[s.ip]? = some (.lookbehind neg sg eg k) → Pre { s with ip := s.ip + 1 } false))
+    (d steps peak : Nat) :
+    PFO c R G0 fwd (tryMatchState prog inp look (d + 2) s fwd steps peak) := by
+  obtain ⟨insn, hi⟩ := getElem?_of_lt' hlt
+  by_cases hl1 : ∃ mn mx g, insn = .loop1 mn mx g
+  · obtain ⟨mn, mx, g, rfl⟩ := hl1
+    exact tms_fo_loop1 hchk hw hc h hi d steps peak
+  · exact tms_fo_simple hchk hlc hc h hi (fun mn mx g hh => hl1 ⟨mn, mx, g, hh⟩) hl
+      (fun neg sg eg k => ⟨fun hh => (hpre neg sg eg k).1 (hh ▸ hi), fun hh => (hpre neg sg eg k).2 (hh ▸ hi)⟩)
+      (d + 1) steps peak
+
+/-! ### Safety + frame + ordering together -/
+
+section Total
+variable {A : Bool → Nat → Nat → Prop} {V : Nat → Prop}
+
+/-- The precondition of a nested attempt: it starts inside a closed region at a configuration where
+the certificate holds. -/
+def NestPre (prog : Prog) (c : OrdCert) (s0 : State) (d : Bool) : Prop :=
+  ∃ R', RClosed prog (some R') ∧ InR (some R') s0.ip ∧ OrdAt c d s0.ip s0.pos s0.groups
+
+theorem nestPre_of_tok (hchk : checkOrd prog c = true) (hlc : lookConfined prog = true)
+    {R : Option Region} {G0 : Array GroupData} {fwd : Bool} {s : State} (h : TOK c R G0 fwd s)
+    {insn : Insn} (hi : prog.insns[s.ip]? = some insn) {neg : Bool} {sg eg k : Nat}
+    (hins : insn = .lookahead neg sg eg k ∨ insn = .lookbehind neg sg eg k) (d : Bool) :
+    NestPre prog c { s with ip := s.ip + 1 } d := by
+  obtain ⟨_, _, ⟨v, hv, hvec⟩⟩ := h
+  obtain ⟨hlt, hc'⟩ := lookConfined_spec hlc hi hins
+  have hedge : (s.ip + 1, lookBodyVec v) ∈ ordEdges prog s.ip insn v := by
+    rcases hins with rfl | rfl <;> simp [ordEdges]
+  obtain ⟨vb, hvb, hwb⟩ := (checkOrd_spec hchk hi hv).2.2 _ _ hedge
+  exact ⟨⟨s.ip + 1, k, sg, eg⟩, hc', ⟨Nat.le_refl _, hlt⟩, ⟨vb, hvb, hvec.lookBody.weaken hwb⟩⟩
+
+abbrev PGhost := Nat × (Option Region × Array GroupData)
+
+/-- The total invariant of one thread. -/
+def PT (prog : Prog) (A : Bool → Nat → Nat → Prop) (V : Nat → Prop) (c : OrdCert) (γ : PGhost)
+    (fwd : Bool) (s : State) : Prop :=
+  SOK prog A V γ.1 fwd s ∧ TOK c γ.2.1 γ.2.2 fwd s
+
+theorem pkIcaseOrdered_of_tok {R : Option Region} {G0 : Array GroupData} {fwd : Bool} {s : State}
+    (h : TOK c R G0 fwd s) : PkIcaseOrdered prog s := by
+  intro g gd rs re _ hg hr
+  obtain ⟨_, _, ⟨v, _, hvec⟩⟩ := h
+  have ho := hvec.ordered g gd hg
+  unfold GroupData.asRange at hr
+  split at hr
+  · rename_i s' e h1 h2; cases hr; exact ho _ _ h1 h2
+  · cases hr
+
+/-- **Safety of the PikeVM executor without the `noIcaseBackref` restriction.** -/
+theorem runStates_safe_ord (hs : Spec prog inp A V) (hw : wfProg prog = true)
+    (hchk : checkOrd prog c = true) (hlc : lookConfined prog = true) (limit : Nat) :
+    ∀ sf states fwd steps peak (γ : PGhost), RClosed prog γ.2.1 →
+      (∀ (i : Nat) (s : State), states[i]? = some s → PT prog A V c γ fwd s) →
+      PkPost prog V γ.1 fwd (runStates prog inp limit sf states fwd steps peak) ∧
+      PkPostFO γ.2.1 γ.2.2 (runStates prog inp limit sf states fwd steps peak) := by
+  intro sf
+  induction sf with
+  | zero => intro states fwd steps peak γ _ _; simp [runStates, PkPost, PkPostFO]
+  | succ sf ih =>
+    intro states fwd steps peak γ hc hall
+    unfold runStates
+    cases hbk : states.back? with
+    | none => exact ⟨trivial, trivial⟩
+    | some s =>
+      simp only
+      split
+      · exact ⟨trivial, trivial⟩
+      · have hPT : PT prog A V c γ fwd s := by
+          rw [Array.back?_eq_getElem?] at hbk
+          exact hall _ _ hbk
+        obtain ⟨hS, hT⟩ := hPT
+        have hlt := hs.ip_lt hS.1
+        -- nested attempts
+        have hnest : ∀ s0 d st pk R', SOK prog A V s0.pos d s0 → RClosed prog (some R') →
+            InR (some R') s0.ip → OrdAt c d s0.ip s0.pos s0.groups →
+            PkPost prog V s0.pos d (runStates prog inp limit sf #[s0] d st pk) ∧
+            PkPostFO (some R') s0.groups (runStates prog inp limit sf #[s0] d st pk) := by
+          intro s0 d st pk R' h0 hc' hin' hord'
+          refine ih #[s0] d st pk (s0.pos, (some R', s0.groups)) hc' ?_
+          intro i s1 hi1
+          have : i = 0 := by
+            have := lt_of_getElem?_eq_some hi1; simp at this; omega
+          subst this
+          simp at hi1; subst hi1
+          exact ⟨h0, hin', ⟨rfl, fun _ _ => rfl⟩, hord'⟩
+        have hl : LookOK prog A V (NestPre prog c) (fun s0 dirFwd steps peak =>
+            runStates prog inp limit sf #[s0] dirFwd steps peak) := by
+          intro s0 d st pk h0 hpre
+          obtain ⟨R', hc', hin', hord'⟩ := hpre
+          exact (hnest s0 d st pk R' h0 hc' hin' hord').1
+        have hlfo : LookFO prog c (fun s0 d => SOK prog A V s0.pos d s0) (fun s0 dirFwd steps peak =>
+            runStates prog inp limit sf #[s0] dirFwd steps peak) :=
+          fun s0 d st pk R' h0 hc' hin' hord' => (hnest s0 d st pk R' h0 hc' hin' hord').2
+        have hsz : 0 < prog.insns.size := Nat.lt_of_le_of_lt (Nat.zero_le _) hlt
+        obtain ⟨d, hd⟩ : ∃ d, prog.insns.size + 1 = d + 2 := ⟨prog.insns.size - 1, by omega⟩
+        rw [hd]
+        have hsm := tms_ok hs hw hl hS (pkIcaseOrdered_of_tok hT)
+          (fun neg sg eg k => ⟨fun hi => nestPre_of_tok hchk hlc hT hi (Or.inl rfl) true,
+            fun hi => nestPre_of_tok hchk hlc hT hi (Or.inr rfl) false⟩)
+          d (steps + 1) (if peak < states.size then states.size else peak)
+        have hfo := tms_fo (inp := inp) hchk hw hlc hc hT hlt hlfo
+          (fun neg sg eg k =>
+            ⟨fun hi => ⟨(hs.look hS.1).1 hi, MovedLe.refl _ _, hS.2.2.of_eq rfl rfl⟩,
+             fun hi => ⟨(hs.look hS.1).2 hi, MovedLe.refl _ _, hS.2.2.of_eq rfl rfl⟩⟩)
+          d (steps + 1) (if peak < states.size then states.size else peak)
+        have hpop : ∀ (i : Nat) (s' : State), states.pop[i]? = some s' → PT prog A V c γ fwd s' := by
+          intro i s' hi
+          rw [Array.getElem?_pop] at hi
+          split at hi
+          · exact hall i s' hi
+          · cases hi
+        have hpush : ∀ (st : Array State) (s1 : State),
+            (∀ (i : Nat) (s' : State), st[i]? = some s' → PT prog A V c γ fwd s') →
+            PT prog A V c γ fwd s1 →
+            ∀ (i : Nat) (s' : State), (st.push s1)[i]? = some s' → PT prog A V c γ fwd s' := by
+          intro st s1 h1 h2 i s' hi
+          rw [Array.getElem?_push] at hi
+          split at hi
+          · cases hi; exact h2
+          · exact h1 i s' hi
+        cases hr : tryMatchState prog inp (fun s0 dirFwd steps peak =>
+            runStates prog inp limit sf #[s0] dirFwd steps peak) (d + 2) s fwd (steps + 1)
+            (if peak < states.size then states.size else peak) with
+        | err e => rw [hr] at hsm; exact hsm.elim
+        | outOfFuel => exact ⟨trivial, trivial⟩
+        | fail s' st pk => exact ih _ _ _ _ γ hc hpop
+        | cont s' st pk =>
+          rw [hr] at hsm hfo
+          exact ih _ _ _ _ γ hc (hpush _ _ hpop ⟨hsm, hfo⟩)
+        | complete s' st pk =>
+          rw [hr] at hsm hfo
+          exact ⟨⟨rfl, hsm.2, hsm.1.2.1, hsm.1.2.2⟩, hfo.2.1, by
+            obtain ⟨v, _, hvec⟩ := hfo.2.2; exact hvec.ordered⟩
+        | split s' n st pk =>
+          rw [hr] at hsm hfo
+          exact ih _ _ _ _ γ hc (hpush _ _ (hpush _ _ hpop ⟨hsm.1, hfo.1⟩) ⟨hsm.2, hfo.2⟩)
+
+end Total
+
+end FO
 
 end Regress.VM.Pk
